@@ -244,9 +244,15 @@ pub fn contended(golden: &'static [String]) -> Vec<(usize, usize)> {
     let nthreads = 2 + rt::below(3);
     let log = rt::Arc::new(rt::Mutex::new(Vec::new()));
     let mut handles = Vec::new();
+    // every other scenario is a first-use stampede: all threads begin with the same call, so the
+    // lazily initialised metadata of its types is contended by everybody at once
+    let stampede = if rt::below(2) == 0 { Some(rt::below(NSPECS)) } else { None };
     for t in 0..nthreads {
         let ncalls = 1 + rt::below(6);
-        let plan: Vec<usize> = (0..ncalls).map(|_| rt::below(NSPECS)).collect();
+        let mut plan: Vec<usize> = (0..ncalls).map(|_| rt::below(NSPECS)).collect();
+        if let Some(s0) = stampede {
+            plan.insert(0, s0);
+        }
         let log = log.clone();
         handles.push(rt::spawn(move || {
             rt::install_decode_yield();
